@@ -657,6 +657,7 @@ theorem rt_value : ∀ (v : Val) (html : Bool) (rest : Str) (f : Nat), JsonShape
       | succ f =>
         simp only [encN, encList, List.cons_append, List.nil_append, List.append_nil]
         rw [value_bracket, skipWs_cons_of _ _ (by decide)]
+        rfl
   | .list (x :: xs), html, rest, f, hv, _, hf => by
       cases f with
       | zero => simp [sz] at hf
@@ -681,6 +682,7 @@ theorem rt_value : ∀ (v : Val) (html : Bool) (rest : Str) (f : Nat), JsonShape
       | succ f =>
         simp only [encN, encEntries, List.cons_append, List.nil_append, List.append_nil]
         rw [value_brace, skipWs_cons_of _ _ (by decide)]
+        rfl
   | .map ((k, v) :: kvs), html, rest, f, hv, _, hf => by
       cases f with
       | zero => simp [sz] at hf
@@ -763,6 +765,291 @@ theorem rt_members : ∀ (kvs : Entries) (html : Bool) (rest : Str) (f : Nat) (a
         simp only []
         rw [insert_of_not_mem k v acc (distinct_mid acc k v _ hd), h2]
         simp
+end
+
+/-! ### enough fuel: the length of the text -/
+
+theorem numOk_ne_nil (lit : Str) (h : NumOk lit = true) : 0 < lit.length := by
+  obtain ⟨c, tl, rfl, _⟩ := numberLit_head lit lit [] ((NumOk_iff _).1 h)
+  simp
+
+mutual
+theorem sz_le_length : ∀ (html : Bool) (v : Val), JsonShaped v = true → sz v ≤ (encN html v).length
+  | _, .null, _ => by simp [sz, encN]
+  | _, .bool b, _ => by cases b <;> simp [sz, encN]
+  | _, .num t, hv => by
+      simp only [JsonShaped, Bool.and_eq_true] at hv
+      have := numOk_ne_nil _ hv.2
+      simp only [sz, encN]; omega
+  | _, .str s, _ => by simp [sz, encN, quote]
+  | html, .list xs, hv => by
+      have := szList_le_length html xs (by simpa [JsonShaped] using hv)
+      simp only [sz, encN, List.length_append, List.length_cons, List.length_nil]; omega
+  | html, .map kvs, hv => by
+      simp only [JsonShaped, Bool.and_eq_true] at hv
+      have := szEntries_le_length html kvs hv.1
+      simp only [sz, encN, List.length_append, List.length_cons, List.length_nil]; omega
+theorem szList_le_length : ∀ (html : Bool) (xs : List Val), JsonShapedList xs = true →
+    szList xs ≤ (encList html xs).length + 1
+  | _, [], _ => by simp [szList]
+  | html, [x], hv => by
+      simp only [JsonShapedList, Bool.and_eq_true] at hv
+      have := sz_le_length html x hv.1
+      simp only [szList, encList]; omega
+  | html, x :: y :: r, hv => by
+      simp only [JsonShapedList, Bool.and_eq_true] at hv
+      have h1 := sz_le_length html x hv.1
+      have h2 := szList_le_length html (y :: r) (by simp [JsonShapedList, hv.2.1, hv.2.2])
+      simp only [szList, encList, List.length_append, List.length_cons, List.length_nil] at h2 ⊢
+      omega
+theorem szEntries_le_length : ∀ (html : Bool) (kvs : Entries), JsonShapedEntries kvs = true →
+    szEntries kvs ≤ (encEntries html kvs).length + 1
+  | _, [], _ => by simp [szEntries]
+  | html, [(k, v)], hv => by
+      simp only [JsonShapedEntries, Bool.and_eq_true] at hv
+      have := sz_le_length html v hv.1
+      simp only [szEntries, encEntries, List.length_append, List.length_cons, List.length_nil]
+      omega
+  | html, (k, v) :: e :: r, hv => by
+      obtain ⟨k2, v2⟩ := e
+      simp only [JsonShapedEntries, Bool.and_eq_true] at hv
+      have h1 := sz_le_length html v hv.1
+      have h2 := szEntries_le_length html ((k2, v2) :: r)
+        (by simp [JsonShapedEntries, hv.2.1, hv.2.2])
+      simp only [szEntries, encEntries, List.length_append, List.length_cons, List.length_nil]
+        at h2 ⊢
+      omega
+end
+
+/-- the decoder's own fuel (text length + 1) is enough -/
+theorem firstValue_encN (html : Bool) (v : Val) (hv : JsonShaped v = true) (rest : Str)
+    (hr : ∀ t, v = .num t → numEnd rest = true) :
+    firstValue (encN html v ++ rest) = some v := by
+  have := sz_le_length html v hv
+  unfold firstValue
+  rw [rt_value v html rest _ hv hr (by simp only [List.length_append]; omega)]
+  rfl
+
+/-! ### sorting entries with distinct keys -/
+
+theorem distinctKeys_iff_nodup (kvs : Entries) : distinctKeys kvs = true ↔ (keys kvs).Nodup := by
+  induction kvs with
+  | nil => simp [distinctKeys, keys]
+  | cons e kvs ih =>
+    obtain ⟨k, v⟩ := e
+    simp only [distinctKeys, Bool.and_eq_true, Bool.not_eq_true', List.any_eq_false, beq_iff_eq,
+      ih, keys, List.map_cons, List.nodup_cons, List.mem_map, not_exists, not_and]
+
+theorem insertByKey_perm (e : Str × Val) (xs : Entries) : (insertByKey e xs).Perm (e :: xs) := by
+  induction xs with
+  | nil => exact List.Perm.refl _
+  | cons x xs ih =>
+    simp only [insertByKey]
+    split
+    · exact ((List.Perm.cons x ih).trans (List.Perm.swap e x xs))
+    · exact List.Perm.refl _
+
+theorem sortByKey_perm (l : Entries) : (sortByKey l).Perm l := by
+  induction l with
+  | nil => exact List.Perm.refl _
+  | cons e l ih =>
+    show (insertByKey e (sortByKey l)).Perm (e :: l)
+    exact (insertByKey_perm e _).trans (List.Perm.cons e ih)
+
+theorem distinctKeys_sortByKey (l : Entries) (h : distinctKeys l = true) :
+    distinctKeys (sortByKey l) = true := by
+  rw [distinctKeys_iff_nodup] at h ⊢
+  unfold keys at h ⊢
+  exact (((sortByKey_perm l).map (fun e => e.1)).nodup_iff).2 h
+
+theorem jsonShapedEntries_iff (kvs : Entries) :
+    JsonShapedEntries kvs = true ↔ ∀ e ∈ kvs, JsonShaped e.2 = true := by
+  induction kvs with
+  | nil => simp [JsonShapedEntries]
+  | cons e kvs ih =>
+    obtain ⟨k, v⟩ := e
+    simp [JsonShapedEntries, ih]
+
+theorem jsonShapedEntries_sortByKey (l : Entries) (h : JsonShapedEntries l = true) :
+    JsonShapedEntries (sortByKey l) = true := by
+  rw [jsonShapedEntries_iff] at h ⊢
+  exact fun e he => h e ((sortByKey_perm l).mem_iff.1 he)
+
+theorem keys_normEntries : ∀ kvs : Entries, keys (Val.normEntries kvs) = keys kvs
+  | [] => rfl
+  | (k, v) :: rest => by
+      simp only [Val.normEntries, keys, List.map_cons]
+      exact congrArg _ (keys_normEntries rest)
+
+theorem distinctKeys_normEntries (kvs : Entries) (h : distinctKeys kvs = true) :
+    distinctKeys (Val.normEntries kvs) = true := by
+  rw [distinctKeys_iff_nodup] at h ⊢
+  rwa [keys_normEntries]
+
+mutual
+/-- normalisation (sorting every map by key) keeps a value JSON-shaped -/
+theorem jsonShaped_norm : ∀ v : Val, JsonShaped v = true → JsonShaped v.norm = true
+  | .null, h => h
+  | .bool _, h => h
+  | .num _, h => h
+  | .str _, h => h
+  | .list xs, h => by
+      simp only [Val.norm, JsonShaped] at h ⊢
+      exact jsonShaped_normList xs h
+  | .map kvs, h => by
+      simp only [Val.norm, JsonShaped, Bool.and_eq_true] at h ⊢
+      exact ⟨jsonShapedEntries_sortByKey _ (jsonShaped_normEntries kvs h.1),
+        distinctKeys_sortByKey _ (distinctKeys_normEntries kvs h.2)⟩
+theorem jsonShaped_normList : ∀ xs : List Val, JsonShapedList xs = true →
+    JsonShapedList (Val.normList xs) = true
+  | [], _ => rfl
+  | x :: xs, h => by
+      simp only [Val.normList, JsonShapedList, Bool.and_eq_true] at h ⊢
+      exact ⟨jsonShaped_norm x h.1, jsonShaped_normList xs h.2⟩
+theorem jsonShaped_normEntries : ∀ kvs : Entries, JsonShapedEntries kvs = true →
+    JsonShapedEntries (Val.normEntries kvs) = true
+  | [], _ => rfl
+  | (k, v) :: rest, h => by
+      simp only [Val.normEntries, JsonShapedEntries, Bool.and_eq_true] at h ⊢
+      exact ⟨jsonShaped_norm v h.1, jsonShaped_normEntries rest h.2⟩
+end
+
+/-! ### the key order: total and antisymmetric, so sorting a sorted distinct list is the identity -/
+
+theorem strLe_total : ∀ a b : Str, strLe a b = false → strLe b a = true
+  | [], _, h => by simp [strLe] at h
+  | _ :: _, [], _ => by simp [strLe]
+  | a :: as, b :: bs, h => by
+      simp only [strLe, Bool.or_eq_false_iff, decide_eq_false_iff_not, Bool.and_eq_false_iff,
+        beq_eq_false_iff_ne, Nat.not_lt] at h
+      simp only [strLe, Bool.or_eq_true, decide_eq_true_eq, Bool.and_eq_true, beq_iff_eq]
+      rcases h with ⟨h1, h2 | h2⟩
+      · left; omega
+      · by_cases he : a.toNat = b.toNat
+        · right; exact ⟨he.symm, strLe_total as bs h2⟩
+        · left; omega
+
+theorem strLe_antisymm : ∀ a b : Str, strLe a b = true → strLe b a = true → a = b
+  | [], [], _, _ => rfl
+  | [], _ :: _, _, h => by simp [strLe] at h
+  | _ :: _, [], h, _ => by simp [strLe] at h
+  | a :: as, b :: bs, h1, h2 => by
+      simp only [strLe, Bool.or_eq_true, decide_eq_true_eq, Bool.and_eq_true, beq_iff_eq] at h1 h2
+      have he : a.toNat = b.toNat := by
+        rcases h1 with h1 | h1 <;> rcases h2 with h2 | h2 <;> omega
+      have h1' : strLe as bs = true := by
+        rcases h1 with h1 | h1
+        · omega
+        · exact h1.2
+      have h2' : strLe bs as = true := by
+        rcases h2 with h2 | h2
+        · omega
+        · exact h2.2
+      rw [Char.toNat_inj.1 he, strLe_antisymm as bs h1' h2']
+
+/-- adjacent entries are in key order -/
+def sortedAdj : Entries → Prop
+  | [] => True
+  | [_] => True
+  | x :: y :: r => strLe x.1 y.1 = true ∧ sortedAdj (y :: r)
+
+theorem sortedAdj_tail {x : Str × Val} {l : Entries} (h : sortedAdj (x :: l)) : sortedAdj l := by
+  cases l with
+  | nil => trivial
+  | cons y r => exact h.2
+
+theorem insertByKey_sortedAdj (e : Str × Val) : ∀ xs : Entries, sortedAdj xs →
+    sortedAdj (insertByKey e xs)
+  | [], _ => trivial
+  | [x], _ => by
+      simp only [insertByKey]
+      split
+      · next h => exact ⟨h, trivial⟩
+      · next h => exact ⟨strLe_total _ _ (by simpa using h), trivial⟩
+  | x :: y :: r, hs => by
+      have ih := insertByKey_sortedAdj e (y :: r) hs.2
+      simp only [insertByKey] at ih ⊢
+      split
+      · next h =>
+        split
+        · next h' => simp only [h', if_true] at ih; exact ⟨hs.1, ih⟩
+        · next h' => exact ⟨h, strLe_total _ _ (by simpa using h'), hs.2⟩
+      · next h => exact ⟨strLe_total _ _ (by simpa using h), hs⟩
+
+theorem sortByKey_sortedAdj : ∀ l : Entries, sortedAdj (sortByKey l)
+  | [] => trivial
+  | e :: l => insertByKey_sortedAdj e _ (sortByKey_sortedAdj l)
+
+theorem sortByKey_of_sorted : ∀ l : Entries, sortedAdj l → distinctKeys l = true → sortByKey l = l
+  | [], _, _ => rfl
+  | [e], _, _ => rfl
+  | e :: x :: r, hs, hd => by
+      have hd' : distinctKeys (x :: r) = true := by
+        simp only [distinctKeys, Bool.and_eq_true] at hd ⊢; exact hd.2
+      have ih := sortByKey_of_sorted (x :: r) hs.2 hd'
+      show insertByKey e (sortByKey (x :: r)) = _
+      rw [ih]
+      have hne : x.1 ≠ e.1 := by
+        simp only [distinctKeys, Bool.and_eq_true, Bool.not_eq_true', List.any_eq_false,
+          beq_iff_eq, List.mem_cons] at hd
+        exact hd.1 x (Or.inl rfl)
+      have : strLe x.1 e.1 = false := by
+        cases h : strLe x.1 e.1 with
+        | false => rfl
+        | true => exact absurd (strLe_antisymm _ _ h hs.1) hne
+      simp [insertByKey, this]
+
+theorem sortByKey_idem (l : Entries) (hd : distinctKeys l = true) :
+    sortByKey (sortByKey l) = sortByKey l :=
+  sortByKey_of_sorted _ (sortByKey_sortedAdj l) (distinctKeys_sortByKey l hd)
+
+theorem normEntries_insertByKey (e : Str × Val) : ∀ xs : Entries,
+    Val.normEntries (insertByKey e xs) = insertByKey (e.1, e.2.norm) (Val.normEntries xs)
+  | [] => by obtain ⟨k, v⟩ := e; simp [insertByKey, Val.normEntries]
+  | (k', v') :: xs => by
+      obtain ⟨k, v⟩ := e
+      simp only [insertByKey, Val.normEntries]
+      split
+      · simp only [Val.normEntries]; exact congrArg _ (normEntries_insertByKey (k, v) xs)
+      · simp [Val.normEntries]
+
+theorem normEntries_sortByKey : ∀ l : Entries,
+    Val.normEntries (sortByKey l) = sortByKey (Val.normEntries l)
+  | [] => rfl
+  | (k, v) :: l => by
+      show Val.normEntries (insertByKey (k, v) (sortByKey l)) = _
+      rw [normEntries_insertByKey, normEntries_sortByKey l]
+      rfl
+
+mutual
+/-- on JSON-shaped values (distinct keys) normalising twice is normalising once -/
+theorem norm_idem : ∀ v : Val, JsonShaped v = true → v.norm.norm = v.norm
+  | .null, _ => rfl
+  | .bool _, _ => rfl
+  | .num _, _ => rfl
+  | .str _, _ => rfl
+  | .list xs, h => by
+      simp only [Val.norm, JsonShaped] at h ⊢
+      rw [normList_idem xs h]
+  | .map kvs, h => by
+      simp only [JsonShaped, Bool.and_eq_true] at h
+      simp only [Val.norm]
+      rw [normEntries_sortByKey, normEntries_idem kvs h.1,
+        sortByKey_idem _ (distinctKeys_normEntries kvs h.2)]
+theorem normList_idem : ∀ xs : List Val, JsonShapedList xs = true →
+    Val.normList (Val.normList xs) = Val.normList xs
+  | [], _ => rfl
+  | x :: xs, h => by
+      simp only [JsonShapedList, Bool.and_eq_true] at h
+      simp only [Val.normList]
+      rw [norm_idem x h.1, normList_idem xs h.2]
+theorem normEntries_idem : ∀ kvs : Entries, JsonShapedEntries kvs = true →
+    Val.normEntries (Val.normEntries kvs) = Val.normEntries kvs
+  | [], _ => rfl
+  | (k, v) :: rest, h => by
+      simp only [JsonShapedEntries, Bool.and_eq_true] at h
+      simp only [Val.normEntries]
+      rw [norm_idem v h.1, normEntries_idem rest h.2]
 end
 
 end Mxj.Json
